@@ -62,12 +62,29 @@ Theorem C19_fibex_selects_signal_bits :
 Proof. exact fibex_selects. Qed.
 Print Assumptions C19_fibex_selects_signal_bits.
 
-(* the writer before fix C19_fibex_bit_position wrote the Motorola MSB position: a 2-bit Motorola signal
-   on the two top bits of byte 0 got BIT-POSITION 7, which FIBEX reads as bits 7 (LSB) and byte -1 ... *)
+(* multiplexed frames: a signal of the dynamic or static part is written relative to the start p of its part's
+   segment (fibex_emit_in p) and read back as segment position + relative position: for every p *)
+Theorem C19_fibex_segment_selects_signal_bits :
+  forall p s, fibex_positions (fibex_in_frame p (fibex_emit_in p s)) = spec_positions s.
+Proof. exact fibex_segment_selects. Qed.
+Print Assumptions C19_fibex_segment_selects_signal_bits.
+
+(* the segment the writer computes over the signals of a part (whole bytes, seg_range mirrors
+   get_multiplexing_parts_infos) contains every bit of every signal of the part: no signal instance leaves
+   the PDU it is placed in, whatever the frame length *)
+Theorem C19_fibex_segment_contains_its_signals :
+  forall sigs s j, Forall sig_ok sigs -> In s sigs -> In j (spec_positions s) ->
+    fst (seg_range (-1, -1) sigs) <= j < snd (seg_range (-1, -1) sigs).
+Proof. exact fibex_segment_contains. Qed.
+Print Assumptions C19_fibex_segment_contains_its_signals.
+
+(* the writer before fix C19_fibex_bit_position wrote the position of the MSB for Motorola signals: a 2-bit
+   Motorola signal on bits 7..6 of byte 1 got BIT-POSITION 15, which FIBEX reads as LSB = bit 7 of byte 1 and
+   MSB = bit 0 of byte 0 (positions 7, 8 instead of 8, 9) *)
 Theorem C19_fibex_msb_position_refuted :
-  exists s, inside 8 s = true /\
-            fibex_positions (fibex_emit_with false s) <> spec_positions s.
-Proof. exists (mkSignal 1 0 2 false false false). split; [reflexivity|]. vm_compute. discriminate. Qed.
+  exists s, inside 16 s = true /\
+            fibex_positions (fibex_emit_with false s) = [7; 8] /\ spec_positions s = [8; 9].
+Proof. exists (mkSignal 1 8 2 false false false). vm_compute. repeat split. Qed.
 Print Assumptions C19_fibex_msb_position_refuted.
 
 Theorem C19_fibex_records_width_order_sign :
@@ -102,8 +119,9 @@ Print Assumptions C19_canard_selects_signal_bits_partial.
 (* the format has no byte order: a Motorola signal that crosses a byte boundary is misread *)
 Theorem C19_canard_selects_signal_bits_refuted :
   exists s, inside 16 s = true /\
-            canard_positions (canard_key s) (s_size s) <> spec_positions s.
-Proof. exists (mkSignal 1 4 8 false false false). split; [reflexivity|]. vm_compute. discriminate. Qed.
+            canard_positions (canard_key s) (s_size s) = [20; 21; 22; 23; 8; 9; 10; 11] /\
+            spec_positions s = [4; 5; 6; 7; 8; 9; 10; 11].
+Proof. exists (mkSignal 1 4 8 false false false). vm_compute. repeat split. Qed.
 Print Assumptions C19_canard_selects_signal_bits_refuted.
 
 (* non-vacuity: a signed 11-bit Motorola signal and a 12-bit Intel signal in a 3-byte frame *)
@@ -115,5 +133,6 @@ Example C19_example :
   spec_positions i = [18; 19; 20; 21; 22; 23; 8; 9; 10; 11; 12; 13] /\
   ws_emit 3 i = mkWs true 2 12 None /\ scapy_emit m = mkScapy 2 11 true 1 /\
   fibex_emit m = mkFx 8 true 11 1 16 /\ csv_emit 1 m = mkCsv 1 5 11 true true /\
+  seg_range (-1, -1) [i] = (8, 24) /\ fibex_emit_in 8 i = mkFx 2 false 12 0 16 /\
   ws_read [0xA5; 0x7F; 0x80] (ws_emit 3 m) = Some (-641).
 Proof. vm_compute. repeat split. Qed.
